@@ -39,11 +39,11 @@ SCRIPTS = [
     ("servo", HEAD + "from Reduino.Actuators import Servo\ntarget(\"/dev/ttyACM0\")\ns = Servo(9)\ns.write(90)\n", ["Servo"],
      ("/dev/ttyACM0", "atmelavr", "nanoatmega328")),
     ("lcd-parallel", HEAD + "from Reduino.Displays import LCD\ntarget(\"COM4\")\n" + LCD_P + "lcd.write(0, 0, \"hi\")\n",
-     ["LiquidCrystal"], ("COM4", "atmelmegaavr", "nano_every")),
+     ["LiquidCrystal"], ("com27", "atmelmegaavr", "nano_every")),
     ("lcd-i2c", HEAD + "from Reduino.Displays import LCD\ntarget(\"COM5\")\n" + LCD_I + "panel.write(0, 0, \"hi\")\n",
      ["LiquidCrystal_I2C"], ("/dev/cu.usbmodem14101", "atmelavr", "megaatmega2560")),
     ("servo+lcd-parallel", HEAD + "from Reduino.Actuators import Servo\nfrom Reduino.Displays import LCD\ntarget(\"COM3\")\n"
-     "s = Servo(10)\n" + LCD_P + "s.write(10)\nlcd.write(0, 1, \"ok\")\n", ["Servo", "LiquidCrystal"], ("COM3", "atmelavr", "leonardo")),
+     "s = Servo(10)\n" + LCD_P + "s.write(10)\nlcd.write(0, 1, \"ok\")\n", ["Servo", "LiquidCrystal"], ("COM12", "atmelavr", "leonardo")),
     ("servo+lcd-i2c", HEAD + "from Reduino.Actuators import Servo\nfrom Reduino.Displays import LCD\ntarget(\"COM3\")\n"
      + LCD_I + "s = Servo(10)\ns.write(10)\n", ["Servo", "LiquidCrystal_I2C"], ("COM 12", "atmelmegaavr", "uno_wifi_rev2")),
     ("both-lcds", HEAD + "from Reduino.Displays import LCD\ntarget(\"COM3\")\n" + LCD_P + LCD_I + "lcd.clear()\npanel.clear()\n",
